@@ -1,6 +1,7 @@
 package main
 
 import (
+	"sync/atomic"
 	"time"
 	"fmt"
 	"go/ast"
@@ -246,7 +247,15 @@ type State struct {
 	havocTok string // identifies the last frame-less call this state went through
 }
 
+// memAbort is raised by the watchdog in main when the process heap grows beyond its budget (path explosion in the
+// counterexample search of a large function): symbolic execution stops with an "unsupported" panic, which the search
+// treats as "nothing found" and the main verification as "contract cannot be established".
+var memAbort atomic.Bool
+
 func (s *State) clone() *State {
+	if memAbort.Load() {
+		panic(unsupported("memory budget exhausted"))
+	}
 	n := &State{alloc: s.alloc}
 	n.vars = make(map[types.Object]Term, len(s.vars))
 	for k, v := range s.vars {
